@@ -42,6 +42,14 @@ def install():
     mathops.np._srcmodule = symnp
     mathops.fft._srcmodule = symnp.fft
     mathops.ndimage._srcmodule = symnp.ndimage
+    # functools.lru_cache wrappers hash their arguments: symbolic values are unhashable, and the cached
+    # functions are pure, so the wrapper is bypassed (the wrapped body is what runs)
+    import functools
+    for name, mod in list(sys.modules.items()):
+        if (name == 'prysm' or name.startswith('prysm.')) and mod is not None:
+            for k, v in list(mod.__dict__.items()):
+                if isinstance(v, functools._lru_cache_wrapper):
+                    mod.__dict__[k] = v.__wrapped__
     import numbers
     numbers.Integral.register(SInt)
     numbers.Real.register(SReal)
@@ -331,3 +339,5 @@ def skolem(n, name='p'):
     ctx.add((k < n).z if not isinstance(n, int) else k.z < n)
     ctx.add_hint(k)
     return k
+
+from .spec import SpecFn   # noqa
